@@ -734,6 +734,11 @@ def _facts_for(fn, S, term, vals, mode, depth=0):
     out = []
     if depth > 12:
         return out
+    # a value looked at through a plain reference (`if let Err(_) = &result`) is the value itself
+    if term[0] == 'place' and term[2] and all(p == '*' for p in term[2]) and term[1][0] in ('call', 'phi', 'arg'):
+        alias = _facts_for(fn, S, term[1], vals, mode, depth + 1)
+        if alias:
+            return alias
     k = term[0]
     if k == 'not':
         return _facts_for(fn, S, term[1], _flip(vals), mode, depth + 1)
